@@ -498,16 +498,17 @@ def run_d6(facts, rep, tier):
                 a0, a1, comb = [cn.r(a) for a in n["args"]]
                 if "$" in comb or not re.fullmatch(r"[A-Za-z_:<>]+", comb):
                     continue  # the third argument is not a combining function
-                m0 = re.fullmatch(r"\$P0~Some\.(\w+)", a0)
-                m1 = re.fullmatch(r"\$P1~Some\.(\w+)", a1)
+                OPND = r"(~Some|\.cloned\(\)|\.unwrap_or_default\(\)|\.as_ref\(\)|\.unwrap\(\))*\.(\w+)"
+                m0 = re.fullmatch(r"\$P0" + OPND, a0)
+                m1 = re.fullmatch(r"\$P1" + OPND, a1)
                 if not (m0 and m1):
-                    m0, m1 = re.fullmatch(r"\$P1~Some\.(\w+)", a0), re.fullmatch(r"\$P0~Some\.(\w+)", a1)
+                    m0, m1 = re.fullmatch(r"\$P1" + OPND, a0), re.fullmatch(r"\$P0" + OPND, a1)
                 if not (m0 and m1) and not ("$P0" in a0 + a1 and "$P1" in a0 + a1):
                     continue  # not a combination of the two operands (e.g. two members of the merged result)
                 n6 += 1
-                field = m0.group(1) if m0 else "?"
+                field = m0.group(2) if m0 else "?"
                 key = "%s/%s" % (h["fn"], field)
-                if not (m0 and m1 and m0.group(1) == m1.group(1)):
+                if not (m0 and m1 and m0.group(2) == m1.group(2)):
                     rep.ob("C09.D6", "combines-same-member:" + key, False, "`%s` is combined with `%s`: the two operands are not the same member of the two schemas" % (a0, a1), n.get("sp"))
                     continue
                 want = [(w, why) for (pat, w, why) in COMBINE if re.search(pat, field)]
@@ -624,7 +625,7 @@ def classify_form(facts, rep, kinds):
     for h in c.user_fns():
         f = c.fns.get(h["fn"], {})
         ins = f.get("inputs", [])
-        if not (any(t.replace("&", "").strip().endswith("schema::InstanceType") for t in ins) and any(kinds.is_value_ty(t) for t in ins)):
+        if not (any("schema::InstanceType" in t for t in ins) and any(kinds.is_value_ty(t) for t in ins)):
             continue
         vname = None
         for i, t in enumerate(ins):
@@ -652,7 +653,7 @@ def classify_form(facts, rep, kinds):
                 remaining = frozenset(remaining & maynot)
             if not usable or not cls:
                 continue
-            eqs = [x for x, _ in walk(h["body"]) if x.get("k") == "bin" and x.get("op") == "Eq"]
+            eqs = [x for x, _ in walk(h["body"]) if (x.get("k") == "bin" and x.get("op") == "Eq") or (x.get("k") == "mcall" and x.get("name") in ("contains", "eq"))]
             if not eqs:
                 continue
             rep.floor("C09.D5", "instance-type test over a JSON value", 1, 1)
